@@ -39,6 +39,7 @@ type Contract struct {
 	Trusted         bool // contract assumed, body not verified (external or out-of-subset)
 	Inline          bool // callers inline the body instead of using the contract
 	NoSafety        bool // do not generate no-panic obligations (for spec helpers)
+	SafetyBefore    string // callee key: safety obligations only before the first call of it
 	Rec             bool // recursive spec function: translated to define-fun-rec
 	SafetyOnly      bool
 	Props           []string
@@ -70,7 +71,7 @@ type RegionSpec struct {
 
 var clauseKeywords = map[string]bool{"func": true, "requires": true, "ensures": true, "modifies": true, "loop": true,
 	"pure": true, "trusted": true, "inline": true, "nosafety": true, "props": true, "assume": true, "region": true,
-	"from": true, "to": true, "ghost": true, "lemma": true, "vars": true, "safetyonly": true, "field": true, "monitor": true, "end": true, "observe": true, "deadreturn": true, "locked": true, "prune": true, "atcall": true, "atsend": true, "timeout": true, "atreturn": true, "callers": true, "rec": true}
+	"from": true, "to": true, "ghost": true, "lemma": true, "vars": true, "safetyonly": true, "field": true, "monitor": true, "end": true, "observe": true, "deadreturn": true, "locked": true, "prune": true, "atcall": true, "atsend": true, "timeout": true, "atreturn": true, "callers": true, "rec": true, "safetybefore": true}
 
 type rawLine struct {
 	text string
@@ -233,6 +234,10 @@ func ParseContractFile(path string) ([]*Contract, []*Decl, error) {
 			cur.NoSafety = true
 		case "safetyonly":
 			cur.SafetyOnly = true
+		case "safetybefore":
+			// safety obligations only for the part of the function that textually precedes the first
+			// call of the named callee (the rest of the function is NOT claimed)
+			cur.SafetyBefore = strings.TrimSpace(rest)
 		case "props":
 			cur.Props = append(cur.Props, fields[1:]...)
 		case "assume":
